@@ -12,6 +12,15 @@ import Flamego.Model.Chain
 namespace Flamego.Chain
 open Flamego.Writer
 
+/-! ### the two constants the model reads from recovery.go (Gen/ConstFacts)
+
+  The lemmas of this file hold for whatever status and body length the source has, as long as
+  the status is not 0 (`recoveryStatus_ne`); the documented values (500, the 21 bytes of
+  "Internal Server Error") are stated where the property names them, in Props/C15
+  (`recoveryStatus_eq`, `recoveryPlainLen_eq`) and Props/ConstFacts/C15. -/
+
+theorem recoveryStatus_ne : recoveryStatus ≠ 0 := by decide
+
 /-! ### Part 1a: traces -/
 
 /-- the slot an event starts, if it is a start event (`run()` consumed that slot) -/
@@ -767,10 +776,12 @@ theorem write_written (w : W) (n m : Nat) (h : WOK w) : (step w (.write n m)).st
   · rw [ensure_sticky w h0]; exact h0
 
 /-- the status Recovery leaves behind when it found status `s` -/
-def finStatus (s : Nat) : Nat := if s = 0 then 500 else s
+def finStatus (s : Nat) : Nat := if s = 0 then recoveryStatus else s
 
 theorem finStatus_ne (s : Nat) : finStatus s ≠ 0 := by
-  unfold finStatus; split <;> omega
+  unfold finStatus; split
+  · exact recoveryStatus_ne
+  · assumption
 
 /-- the body token Recovery sends in this environment -/
 def recTok (c : Cfg) : Tok := if c.dev then Tok.detail else Tok.plain
@@ -851,12 +862,12 @@ theorem mono_ok (c : Cfg) (hb : c.onceBug = false) :
     unfold recoverWrite
     rw [hnf]
     simp only [Bool.false_eq_true, if_false, St.ev_w, St.ev_trace]
-    have hw1 : WOK (s.w.writeHeader 500) := wh_wok _ _ (by decide) hw
-    generalize (if c.dev = true then c.detailLen else 21) = len
+    have hw1 : WOK (s.w.writeHeader recoveryStatus) := wh_wok _ _ recoveryStatus_ne hw
+    generalize (if c.dev = true then c.detailLen else recoveryPlainLen) = len
     have os := outStep c.head s.out (if c.dev = true then Tok.detail else Tok.plain)
-    refine ⟨write_wok (s.w.writeHeader 500) len len hw1, ?_, id, os.1, ?_, ?_⟩
+    refine ⟨write_wok (s.w.writeHeader recoveryStatus) len len hw1, ?_, id, os.1, ?_, ?_⟩
     · intro h
-      rw [write_sticky (s.w.writeHeader 500) len len (by rw [wh_sticky _ _ h]; exact h), wh_sticky _ _ h]
+      rw [write_sticky (s.w.writeHeader recoveryStatus) len len (by rw [wh_sticky _ _ h]; exact h), wh_sticky _ _ h]
     · intro h
       rcases os.2.1 _ h with h | h
       · exact Or.inl h
@@ -872,9 +883,9 @@ theorem mono_ok (c : Cfg) (hb : c.onceBug = false) :
         cases h
         refine ⟨?_, by simpa [recTok, St.ev] using os.2.2⟩
         by_cases h0 : s.w.status = 0
-        · have e500 : (s.w.writeHeader 500).status = 500 := wh_fresh _ _ hw h0
-          rw [write_sticky (s.w.writeHeader 500) len len (by rw [e500]; decide), e500]; simp [finStatus, h0]
-        · rw [write_sticky (s.w.writeHeader 500) len len (by rw [wh_sticky _ _ h0]; exact h0), wh_sticky _ _ h0]; simp [finStatus, h0]
+        · have e500 : (s.w.writeHeader recoveryStatus).status = recoveryStatus := wh_fresh _ _ hw h0
+          rw [write_sticky (s.w.writeHeader recoveryStatus) len len (by rw [e500]; exact recoveryStatus_ne), e500]; simp [finStatus, h0]
+        · rw [write_sticky (s.w.writeHeader recoveryStatus) len len (by rw [wh_sticky _ _ h0]; exact h0), wh_sticky _ _ h0]; simp [finStatus, h0]
   cancel := fun s hw => ⟨hw, fun _ => rfl, fun _ => rfl, fun _ h => h, Or.inl, fun _ _ _ h => Or.inl h⟩
   hook := fun s hw => ⟨hw, fun _ => rfl, id, fun _ h => h, Or.inl, fun _ _ _ h => Or.inl h⟩ }
 
@@ -1194,7 +1205,8 @@ theorem Contained.trans {r : Nat} {a b d : St} {p : Option (PVal × Nat)}
 
 theorem recoverWrite_spec {c : Cfg} (hb : c.onceBug = false) (r : Nat) (st : St) :
     recoverWrite c r st =
-      ({ st with w := step (st.w.writeHeader 500) (.write (if c.dev then c.detailLen else 21) (if c.dev then c.detailLen else 21)),
+      ({ st with w := step (st.w.writeHeader recoveryStatus)
+                        (.write (if c.dev then c.detailLen else recoveryPlainLen) (if c.dev then c.detailLen else recoveryPlainLen)),
                  out := if c.head then st.out else st.out ++ [if c.dev then Tok.detail else Tok.plain] }, none) := by
   simp [recoverWrite, hb]
 
@@ -1212,8 +1224,8 @@ theorem invoke_recovery_spec {c : Cfg} (hb : c.onceBug = false) (runF : St → R
     refine ⟨rfl, ?_⟩
     intro s1' v' j' h hwok
     cases h
-    have := write_written (s1.w.writeHeader 500) (if c.dev then c.detailLen else 21)
-      (if c.dev then c.detailLen else 21) (wh_wok _ _ (by decide) hwok)
+    have := write_written (s1.w.writeHeader recoveryStatus) (if c.dev then c.detailLen else recoveryPlainLen)
+      (if c.dev then c.detailLen else recoveryPlainLen) (wh_wok _ _ recoveryStatus_ne hwok)
     simpa [W.written] using this
 
 theorem contained_invoke {c : Cfg} {r f : Nat} (hb : c.onceBug = false)
